@@ -1153,11 +1153,11 @@ struct Gen {
   std::vector<std::string> stalePool() {
     std::string w = kWork;
     return {w + "/r/a.out", w + "/r/sub/b.o", w + "/rr/c.o", w + "/r2/d.o", w + "/other/e.o", w + "/r//f.o", "rel/g.o", w + "/r/dir1",
-            w + "/r/sub", w + "/r/sub/deep/h.o", w + "/r2", w + "/r/x y.o", "", w + "/r/a.out.extra", w + "/r2/sub/i.o", w + "/rr"};
+            w + "/r/sub", w + "/r/sub/deep/h.o", w + "/r2", w + "/r/x y.o", "", w + "/r/a.out.extra", w + "/r2/sub/i.o", w + "/rr", w + "/r"};
   }
   std::vector<std::string> rootPool() {
     std::string w = kWork;
-    return {w + "/r", w + "/r/", w + "/r2", w + "/r/sub", w + "/r/sub/", w + "/rr/", w + "/r2//", w, w + "/"};
+    return {w + "/r", w + "/r/", w + "/r2", w + "/r/sub", w + "/r/sub/", w + "/rr/", w + "/r2//", w + "/r/sub/deep", w + "/r2/sub/", w, w + "/"};
   }
   void setStale(Cmd& c) {
     auto pool = stalePool();
@@ -1187,7 +1187,7 @@ struct Gen {
     for (auto& pth : stalePool()) {
       if (pth.empty()) continue;
       std::string rel = pth[0] == '/' ? pth.substr(strlen(kWork) + 1) : pth;
-      if (rel == "r/dir1" || rel == "r/sub" || rel == "r2" || rel == "rr") continue;   // these are directories
+      if (rel == "r/dir1" || rel == "r/sub" || rel == "r2" || rel == "rr" || rel == "r") continue;   // these are directories
       if (rng.chance(850)) sources[rel] = "artifact " + std::to_string(counter++) + "\n";
     }
     sources["r/dir1/inner/k.o"] = "nested\n";
@@ -1418,7 +1418,7 @@ struct Gen {
           // an artifact reappears (a later build step would have produced it)
           auto pool = stalePool();
           std::string pth = pool[rng.below(pool.size())];
-          if (!pth.empty() && pth.find("dir1") == std::string::npos && pth != std::string(kWork) + "/r/sub" && pth != std::string(kWork) + "/r2" && pth != std::string(kWork) + "/rr")
+          if (!pth.empty() && pth.find("dir1") == std::string::npos && pth != std::string(kWork) + "/r/sub" && pth != std::string(kWork) + "/r2" && pth != std::string(kWork) + "/rr" && pth != std::string(kWork) + "/r")
             hist.push(Json::obj().set("op", "edit").set("path", util::hex(pth)).set("content", util::hex("again " + std::to_string(counter++) + "\n")));
         }
         addBuild();
